@@ -281,6 +281,9 @@ func (v *Verifier) splitKnown() {
 		}
 		env := fc.env(fc.entry, fc.entry)
 		env.vars = fc.paramVars()
+		if o.wenv != nil {
+			env = o.wenv
+		}
 		w, err := env.EvalBool(e)
 		if err != nil {
 			v.engineErrors = append(v.engineErrors, fmt.Sprintf("known finding for %s: witness: %v", o.Name, err))
